@@ -605,7 +605,19 @@ def routes(ctx):
     norm_fn = ctx.prog.func("torrentfile.utils:normalize_piece_length")
     auto_fns = {ctx.prog.func("torrentfile.utils:path_piece_length"), ctx.prog.func("torrentfile.utils:get_piece_length")}
     flow = Flow(ctx.prog, ctx.res, stop_funcs=[init])
-    g = C.cfg_of(init)
+    # a constructor split into steps: methods only the constructor calls belong to it
+    helpers = dict(C.constructor_helpers(ctx, init))
+
+    def is_option(m, arg):
+        """arg names the piece_length argument of the constructor (directly, or as the parameter a construction step received it in)."""
+        if not isinstance(arg, ast.Name):
+            return False
+        if m is init:
+            return arg.id == "piece_length"
+        bound = ctx.res.bind_args(m, helpers[m], True)
+        b = bound.get(arg.id)
+        reassigned = any(isinstance(x, ast.Name) and x.id == arg.id and isinstance(x.ctx, ast.Store) for x in own_nodes(m.node))
+        return isinstance(b, ast.Name) and b.id == "piece_length" and not reassigned
     # writers of the attribute
     stores = flow.attr_stores(init.cls, "piece_length")
     direct = 0
@@ -613,7 +625,8 @@ def routes(ctx):
         if m is None:
             ctx.violated("C12.3", None, "class-level assignment to piece_length", site)
             continue
-        if m is not init:
+        g = C.cfg_of(m)
+        if m is not init and m not in helpers:
             ctx.violated("C12.3", m, "piece_length is assigned outside MetaFile.__init__: the recorded value is no longer the normaliser's result", site)
             continue
         if isinstance(val, ast.IfExp):
@@ -630,13 +643,13 @@ def routes(ctx):
                 tg = ctx.res.call_targets(arm, m)[0][1]
                 if tg is norm_fn:
                     arg = arm.args[0] if arm.args else None
-                    ctx.decide("C12.3", m, isinstance(arg, ast.Name) and arg.id == "piece_length", "self.piece_length = normalize_piece_length(<the piece_length argument>)",
+                    ctx.decide("C12.3", m, is_option(m, arg), "self.piece_length = normalize_piece_length(<the piece_length argument>)",
                                "the normaliser is not applied to the piece_length argument itself", site)
                     t_ = test
                     if isinstance(t_, ast.Name):
                         vals_ = [p_ for w_, p_ in ctx.res.bindings(m).get(t_.id, []) if w_ == "value"]
                         t_ = vals_[0] if len(vals_) == 1 else t_
-                    truthy = any(isinstance(a, ast.Name) and a.id == "piece_length" for a in C.atoms_of(t_))
+                    truthy = any(is_option(m, a) for a in C.atoms_of(t_))
                     if truthy:
                         ctx.violated("C12.3", m, "whether a piece length was supplied is decided by truthiness (%s): the integer 0 is silently treated as 'not given' and a metafile is produced instead of the piece-length error" % norm(t_), t_)
                     else:
@@ -645,12 +658,21 @@ def routes(ctx):
                     ctx.holds("C12.3", m, "self.piece_length = automatic choice, unchanged", norm(site) + " :: automatic arm")
             continue
         ok = isinstance(val, ast.Call) and all(t[0] == "pkg" and (t[1] is norm_fn or t[1] in auto_fns) for t in ctx.res.call_targets(val, m))
+        if not ok and isinstance(val, ast.Call):
+            # self.piece_length = self._select(piece_length): a method of the class that returns, on every path, the unchanged
+            # result of the normaliser (applied to the argument) or of the automatic choice
+            helped = _route_through_helper(ctx, m, val, norm_fn, auto_fns)
+            if helped is not None:
+                direct += 2
+                for okh, good, bad, node, hfn in helped:
+                    ctx.decide("C12.3", hfn, okh, good, bad, node)
+                continue
         if ok:
             direct += 1
             tg = ctx.res.call_targets(val, m)[0][1]
             if tg is norm_fn:
                 arg = val.args[0] if val.args else None
-                a_ok = isinstance(arg, ast.Name) and arg.id == "piece_length"
+                a_ok = is_option(m, arg)
                 ctx.decide("C12.3", m, a_ok, "self.piece_length = normalize_piece_length(<the piece_length argument>)",
                            "the normaliser is not applied to the piece_length argument itself", site)
                 # 'not given' must mean None / '' - not falsy
@@ -660,7 +682,7 @@ def routes(ctx):
                     t = C.test_expr(b)
                     if t is None:
                         continue
-                    truthy = any(isinstance(a, ast.Name) and a.id == "piece_length" for a in C.atoms_of(t))
+                    truthy = any(is_option(m, a) for a in C.atoms_of(t))
                     if truthy:
                         ctx.violated("C12.3", m, "whether a piece length was supplied is decided by truthiness (%s): the integer 0 is silently treated as 'not given' and a metafile is produced instead of the piece-length error" % norm(t), t)
                     else:
@@ -672,22 +694,71 @@ def routes(ctx):
     ctx.floor("assignments of MetaFile.piece_length", 2, direct)
     # the recorded value
     rec = 0
-    for n in own_nodes(init.node):
-        if isinstance(n, ast.Assign) and len(n.targets) == 1 and isinstance(n.targets[0], ast.Subscript) and const_str(n.targets[0].slice) == "piece length":
-            rec += 1
-            v = n.value
-            ok = isinstance(v, ast.Attribute) and isinstance(v.value, ast.Name) and v.value.id == init.self_name and v.attr == "piece_length"
-            ctx.decide("C12.3", init, ok, "info['piece length'] = self.piece_length (unchanged)", "info['piece length'] is %s, not the normalised attribute" % norm(v), n)
+    for F in [init] + list(helpers):
+        for n in own_nodes(F.node):
+            if isinstance(n, ast.Assign) and len(n.targets) == 1 and isinstance(n.targets[0], ast.Subscript) and const_str(n.targets[0].slice) == "piece length":
+                rec += 1
+                v = n.value
+                ok = isinstance(v, ast.Attribute) and isinstance(v.value, ast.Name) and v.value.id == F.self_name and v.attr == "piece_length"
+                ctx.decide("C12.3", F, ok, "info['piece length'] = self.piece_length (unchanged)", "info['piece length'] is %s, not the normalised attribute" % norm(v), n)
     ctx.floor("stores of info['piece length']", 1, rec)
     # nobody else writes info['piece length'] in the creators
     for f in ctx.prog.functions.values():
-        if f is init or f.module.name not in ("torrentfile.torrent", "torrentfile.hasher"):
+        if f is init or f in helpers or f.module.name not in ("torrentfile.torrent", "torrentfile.hasher"):
             continue
         for n in own_nodes(f.node):
             if isinstance(n, ast.Subscript) and isinstance(n.ctx, ast.Store) and const_str(n.slice) == "piece length":
                 ctx.violated("C12.3", f, "info['piece length'] is overwritten outside MetaFile.__init__", n)
             if isinstance(n, ast.Attribute) and isinstance(n.ctx, ast.Store) and n.attr == "piece_length" and f.cls is not None and init.cls in ctx.prog.mro(f.cls) and f.cls is not init.cls:
                 ctx.violated("C12.3", f, "a creator subclass overwrites piece_length", n)
+
+
+def _route_through_helper(ctx, m, call, norm_fn, auto_fns):
+    """[(ok, text if ok, text if not, node, function)] for a helper method that selects the piece length, or None if `call`
+    is not a call of one method of the class family whose returns can all be read."""
+    tg = [t for t in C.targets_of(ctx, m, call) if t.cls is not None and m.cls is not None and (m.cls in ctx.prog.mro(t.cls) or t.cls in ctx.prog.mro(m.cls))]
+    if len(tg) != 1:
+        return None
+    H = tg[0]
+    bound = ctx.res.bind_args(H, call, not H.is_static)
+    pnames = [p_ for p_, a_ in bound.items() if isinstance(a_, ast.Name) and a_.id == "piece_length"]
+    if len(pnames) != 1:
+        return None
+    pn = pnames[0]
+    g = C.cfg_of(H)
+    out = []
+    rets = [r for r in own_nodes(H.node) if isinstance(r, ast.Return) and r.value is not None]
+    if not rets:
+        return None
+    for r in rets:
+        v = r.value
+        if isinstance(v, ast.Name):
+            vals = [p_ for w_, p_ in ctx.res.bindings(H).get(v.id, []) if w_ == "value"]
+            if len(vals) != 1 or len(ctx.res.bindings(H).get(v.id, [])) != 1:
+                return None
+            v = vals[0]
+        if not isinstance(v, ast.Call):
+            out.append((False, "", "%s returns %s, which is not the unchanged result of the normaliser or of the automatic choice" % (H.name, norm(r.value)), r, H))
+            continue
+        tgs = C.targets_of(ctx, H, v)
+        if tgs and all(t is norm_fn for t in tgs):
+            arg = v.args[0] if v.args else None
+            out.append((isinstance(arg, ast.Name) and arg.id == pn, "%s returns normalize_piece_length(<the piece_length argument>)" % H.name,
+                        "the normaliser is not applied to the piece_length argument itself", v, H))
+            # 'not given' must mean None / '' - not falsy
+            vn = C.stmt_node(ctx, H, v)
+            for b, lab in g.control_deps(vn):
+                t = C.test_expr(b)
+                if t is None:
+                    continue
+                truthy = any(isinstance(a, ast.Name) and a.id == pn for a in C.atoms_of(t))
+                out.append((not truthy, "supplied / not supplied is decided by %s" % norm(t),
+                            "whether a piece length was supplied is decided by truthiness (%s): the integer 0 is silently treated as 'not given' and a metafile is produced instead of the piece-length error" % norm(t), t, H))
+        elif tgs and all(t in auto_fns for t in tgs):
+            out.append((True, "%s returns the automatic choice, unchanged" % H.name, "", r, H))
+        else:
+            out.append((False, "", "%s returns %s, which is not the unchanged result of the normaliser or of the automatic choice" % (H.name, norm(v)), r, H))
+    return out
 
 
 def automatic_input(ctx):
